@@ -42,6 +42,8 @@ const (
 	fProbe                    // the topology probe (CLUSTER NODES) may be sent to a node at any point
 	fBatchReads               // one client read may carry two pipelined requests
 	fRemoveB                  // node B may be removed from the topology at any point (its slots unowned or taken over by A)
+	fMultiReplies             // one backend read may carry several complete replies
+	fQuietLoss                // a backend may go away without the proxy reading EOF first: it finds out when it writes
 )
 
 const verifTimeoutMs = 50
@@ -244,6 +246,7 @@ type vBackend struct {
 	conn     *core.VerifConn
 	answered int
 	lost     bool
+	eofDue   bool   // the peer is gone but the readable event has not been delivered yet
 	partial  []byte // rest of a reply whose first bytes were already delivered
 }
 
@@ -311,7 +314,7 @@ func HarnessWorld(prop, m1, m2, steps, kinds, faults int) {
 		}
 		clients = append(clients, cl)
 	}
-	faulty := faults&(fClientHangup|fUnownedB|fDialFailB|fBackendLoss|fTimeout|fRemoveB) != 0 // proxy-generated errors may occur
+	faulty := faults&(fClientHangup|fUnownedB|fDialFailB|fBackendLoss|fTimeout|fRemoveB|fQuietLoss) != 0 // proxy-generated errors may occur
 	var backs []*vBackend
 	// While poller tasks are pending, the real loop handles at most the rest of the current epoll
 	// batch and one more batch before it runs them: every descriptor gets at most `perFd` more events.
@@ -352,6 +355,14 @@ func HarnessWorld(prop, m1, m2, steps, kinds, faults int) {
 			}
 			if faults&fBackendLoss != 0 && !backendLost {
 				enabled = append(enabled, ev{4, j})
+			}
+			if faults&fQuietLoss != 0 && !backendLost {
+				enabled = append(enabled, ev{8, j})
+			}
+		}
+		for j, b := range backs {
+			if b.eofDue && b.conn.Opened() && may(b.conn.Fd) {
+				enabled = append(enabled, ev{9, j})
 			}
 		}
 		if faults&fTimeout != 0 && timeouts < 1 && s > 0 && !pending {
@@ -413,6 +424,11 @@ func HarnessWorld(prop, m1, m2, steps, kinds, faults int) {
 					}
 				}
 				b.answered++
+				// the same read may carry further complete replies
+				for faults&fMultiReplies != 0 && b.answered < len(got) && verifrt.Choice("and_the_next_reply", 2) == 1 {
+					data = append(append([]byte{}, data...), replyFor(got[b.answered])...)
+					b.answered++
+				}
 				// the same read may already carry the first bytes of the next reply
 				if faults&fSplitReplies != 0 && b.answered < len(got) && verifrt.Choice("with_prefix_of_next", 2) == 1 {
 					next := replyFor(got[b.answered])
@@ -432,6 +448,15 @@ func HarnessWorld(prop, m1, m2, steps, kinds, faults int) {
 			b.lost = true
 			backendLost = true
 			w.HangUp(b.conn)
+		case 8:
+			b := backs[e.arg]
+			b.lost, b.eofDue, backendLost = true, true, true
+			w.CloseQuiet(b.conn)
+		case 9:
+			b := backs[e.arg]
+			evFd = b.conn.Fd
+			b.eofDue = false
+			w.Readable(b.conn)
 		case 5:
 			timeouts++
 			// every request that is waiting for a backend now has been written to it (no task is
@@ -557,6 +582,9 @@ func HarnessWorld(prop, m1, m2, steps, kinds, faults int) {
 		_, got := core.VerifRedisParse(w.Sent(b.conn))
 		if (b.answered < len(got) || b.partial != nil) && !b.lost && b.conn.Opened() {
 			quiet = false
+		}
+		if b.eofDue && b.conn.Opened() {
+			quiet = false // epoll will still report the hang-up
 		}
 	}
 	verifrt.ObserveBool("quiet", quiet)
